@@ -54,7 +54,8 @@ type cacheRun struct {
 	reads                    map[int]int   // key -> read hits since last write
 	opi                      int
 	inBatch                  bool
-	forceQueue, holding      bool // this trace routes async batches through the ring (drain tokens held by the harness)
+	asyncVals                map[int]bool // values written through SetAsync
+	forceQueue, holding      bool         // this trace routes async batches through the ring (drain tokens held by the harness)
 	dead                     bool
 	hits, misses, capN, expN int64
 	ops                      []string
@@ -94,7 +95,7 @@ var dbgTrace = os.Getenv("VERIF_DBG") != ""
 func newCacheRun(m *meta, rng *rand.Rand, tid int, conf kioshun.Config, lst, wmode int, focus string) *cacheRun {
 	r := &cacheRun{m: m, tid: tid, conf: conf, lst: lst, wmode: wmode, focus: focus,
 		costOf: map[int]int64{}, latest: map[int]int{}, deadline: map[int]int64{}, ttlOf: map[int]int64{},
-		written: map[int]int{}, state: map[int]int{}, touch: map[int]int{}, born: map[int]int{}, reads: map[int]int{}}
+		written: map[int]int{}, asyncVals: map[int]bool{}, state: map[int]int{}, touch: map[int]int{}, born: map[int]int{}, reads: map[int]int{}}
 	var opts []kioshun.Option[int, int]
 	if wmode > 0 {
 		opts = append(opts, kioshun.WithWeigher(r.weigher))
@@ -308,6 +309,7 @@ func (r *cacheRun) step(w *traceWriter, kind opKind, k int, ttl int64, cost int6
 		res.I(ec)
 		desc = fmt.Sprintf("%s(%d,v%d,ttl=%d,cost=%d)=%d", map[opKind]string{opSet: "Set", opSetAsync: "SetAsync"}[kind], k, newVal, ttl, mc, ec)
 		if kind == opSetAsync && setErr == nil {
+			r.asyncVals[newVal] = true
 			r.pending[sh] = true
 		} else if kind == opSet && setErr == nil {
 			r.pending[sh] = false
@@ -477,6 +479,9 @@ func (r *cacheRun) step(w *traceWriter, kind opKind, k int, ttl int64, cost int6
 		}
 		if r.state[n.v] == 3 {
 			r.viol("C06", fmt.Sprintf("entry (%d,v%d) notified twice", n.k, n.v))
+			if r.asyncVals[n.v] {
+				r.viol("C04", fmt.Sprintf("the SetAsync that wrote (%d,v%d) was applied more than once: its entry left the cache twice", n.k, n.v))
+			}
 		}
 		if r.state[n.v] == 1 || r.state[n.v] == 2 {
 			r.viol("C06", fmt.Sprintf("entry (%d,v%d) was %s yet notified as %s", n.k, n.v, []string{"", "replaced", "cleared"}[r.state[n.v]], kioshun.RemovalReason(n.r)))
